@@ -177,29 +177,35 @@ def one(args):
 # second scenario: whole sessions of raw input lines (configuration commands included) against the Lean command layer
 # Pm/RfCmd.lean behind the driver rfcmddriver (lean/RfCmdMain.lean), byte for byte, plus predicates on the helper's own output.
 
-HAZARDS_ALL = ('push_fail', 'timeout_overflow', 'undefined_parent', 'cycle', 'no_statpath', 'unmapped_path')
-"""input lines that terminate or wedge the unchanged helper (findings of the command-layer model; each has a `_counterexample`
-theorem in Props/C19.lean).  They are generated only when switched on - RedfishLayer(hazards=...) or the environment variable
-VERIF_RF_HAZARDS=all | push_fail,cycle,... - so that each can be enabled once it is repaired in the repository or listed as known:
+HAZARDS_ALL = ('push_fail', 'undefined_parent', 'cycle', 'no_statpath', 'unmapped_path')
+"""input lines that terminate or wedge the helper (findings of the command-layer model; each has a `_counterexample` theorem in
+Props/C19.lean and an entry F40 / F41 / F42 in KNOWN_FINDINGS, whose signatures are the phrases in SIG_EXIT / check_session below).
+They are generated (with a small probability each) unless switched off: RedfishLayer(hazards=(...)) or the environment variable
+VERIF_RF_HAZARDS=none | push_fail,cycle,... (default: all):
   push_fail         setplugs with a plug name that does not parse as a hostlist again (`P[1]x[`): err_exit "hostlist_push failed"
   unmapped_path     plug name that parses to another name (`P[1]x[3]`); `setpath P1x3 ...`: err_exit "plugs_update_path failed"
-  timeout_overflow  settimeout 9223372036854775807 (or out of range: reported, still stored); next stat/on/off: err_exit "cmd_timeout overflow"
   undefined_parent  stat/on/off of a plug below a parent that is not defined: assert(root_plugname) fails
   cycle             parent cycle: plugs_find_root_parent never returns
-  no_statpath       a parent query / status poll of a plug without status path: the request waits for ever, no prompt"""
+  no_statpath       a parent query / status poll of a plug without status path: the request waits for ever, no prompt
+(F39, `settimeout` storing invalid / huge values, is repaired - 7f04ec7 - and such lines are ordinary malformed input now.)"""
 
-SIG_EXIT = [('hostlist_push failed', 'C19 helper terminated by input: hostlist_push failed (plug name re-parsed as a hostlist expression)'),
-            ('cmd_timeout overflow', 'C19 helper terminated by input: cmd_timeout overflow (settimeout value stored unchecked)'),
-            ('root_plugname', 'C19 helper terminated by input: assertion root_plugname failed (parent plug not defined)'),
-            ('plugs_update_path failed', 'C19 helper terminated by input: plugs_update_path failed (plug known to the list, not to the map)'),
+SIG_EXIT = [('hostlist_push failed', 'C19 helper terminated by input: hostlist push failed (err_exit "hostlist_push failed": plug name re-parsed as a hostlist expression)'),
+            ('cmd_timeout overflow', 'C19 helper terminated by input: cmd timeout overflow (F39 is back: settimeout stored an invalid value)'),
+            ('root_plugname', 'C19 helper terminated by input: assertion root plugname failed (assert(root_plugname): parent plug not defined)'),
+            ('plugs_update_path failed', 'C19 helper terminated by input: plugs update path failed (err_exit "setpath: plugs_update_path failed": plug known to the list, not to the map)'),
             ('AddressSanitizer', 'C19 helper terminated by input: memory error reported by AddressSanitizer'),
             ('runtime error', 'C19 helper terminated by input: undefined behaviour reported by UBSan')]
 
 
-def hazards_enabled(extra=()):
-    v = os.environ.get('VERIF_RF_HAZARDS', '')
-    hz = set(HAZARDS_ALL) if v == 'all' else set(x for x in v.split(',') if x in HAZARDS_ALL)
-    return hz | set(extra)
+def hazards_enabled(choice=None):
+    """the hazard kinds to generate: all by default; VERIF_RF_HAZARDS=none|all|a,b overrides the layer's own choice"""
+    v = os.environ.get('VERIF_RF_HAZARDS')
+    if v is None: return set(HAZARDS_ALL) if choice is None else set(x for x in choice if x in HAZARDS_ALL)
+    if v == 'all': return set(HAZARDS_ALL)
+    return set(x for x in v.split(',') if x in HAZARDS_ALL)
+
+
+HANG_LIMIT = 3          # seconds a session may take on the real helper before it counts as hung (an ordinary one takes ~50 ms)
 
 
 _cmddrv = None
@@ -303,7 +309,6 @@ class Oracle:
             if c == 'undef': hz.add('undefined_parent')
             if c == 'loops': hz.add('cycle')
         if not self.statpath and not all(n in self.ownstat for n in self.tbl): hz.add('no_statpath')
-        if self.timeout > 2 ** 62: hz.add('timeout_overflow')
         for n in self.tbl:
             if b'[' in n or b']' in n: hz.add('unmapped_path')
         return hz
@@ -316,9 +321,8 @@ class Oracle:
         if c == b'quit': self.quit = True
         elif c == b'setstatpath': self.statpath = bool(a)
         elif c == b'settimeout' and a:
-            m = _re.match(rb'^[+-]?\d+', a[0])
-            v = int(m.group(0)) if m else 0
-            self.timeout = max(-2 ** 63, min(2 ** 63 - 1, v))
+            m = _re.match(rb'^[+-]?\d+$', a[0])
+            if m and 0 < int(m.group(0)) <= 2 ** 31 - 1: self.timeout = int(m.group(0))      # stored only when valid (7f04ec7)
         elif c == b'setpath' and len(a) >= 3 and a[1] == b'stat':
             for n in hl_expand(a[0]) or []:
                 if n not in self.tbl: break
@@ -468,18 +472,19 @@ def gen_session(R, hz=()):
             sub = R.choice(ks)
             emit(R.choice([b'setpath ' + sub + b' stat own/{{plug}}/s', b'setpath ' + sub + b' on own/on {"a":1}', b'setpath ' + sub + b' off own/off',
                            b'setpath ' + sub + b' cycle x', b'setpath Zz stat x', b'setpath ' + sub + b',Zz,' + sub + b' on p', b'setpath ' + sub + b' ON x']))
-        elif r < 0.90: emit(R.choice([b'settimeout 5', b'settimeout 0', b'settimeout -5', b'settimeout x', b'settimeout 10x', b'settimeout 1000000000', b'settimeout +7']))
+        elif r < 0.90: emit(R.choice([b'settimeout 5', b'settimeout 0', b'settimeout -5', b'settimeout x', b'settimeout 10x', b'settimeout 1000000000', b'settimeout +7',
+                                      b'settimeout 99999999999999999999', b'settimeout 9223372036854775807', b'settimeout 2147483648', b'settimeout 2147483647',
+                                      b'settimeout -99999999999999999999', b'settimeout 9223372036854775808']))
         elif r < 0.92: emit(b'help')
         elif r < 0.925: emit(R.choice([b'stat P[99999999999999999999]', b'on P[00000000000000000001-00000000000000000002]', b'setplugs Q[18446744073709551616] 0']))
         # ---- lines that terminate or wedge the unchanged helper: only when switched on
-        elif r < 0.95 and 'push_fail' in hz: emit(R.choice([b'setplugs P[1]x[ 0', b'setplugs Q[1-2]]a 0', b'setplugs P[1]]a,b[ 0', b'setplugs P[1-2]-[ 0']))
-        elif r < 0.96 and 'unmapped_path' in hz:
+        elif 0.925 <= r < 0.935 and 'push_fail' in hz: emit(R.choice([b'setplugs P[1]x[ 0', b'setplugs Q[1-2]]a 0', b'setplugs P[1]]a,b[ 0', b'setplugs P[1-2]-[ 0']))
+        elif 0.935 <= r < 0.945 and 'unmapped_path' in hz:
             emit(b'setplugs P[1]x[3] 0'); emit(R.choice([b'stat P1x3', b'stat P[1]x[3]', b'setpath P1x3 stat s']))
-        elif r < 0.97 and 'timeout_overflow' in hz: emit(R.choice([b'settimeout 9223372036854775807', b'settimeout 99999999999999999999']))
-        elif r < 0.98 and 'undefined_parent' in hz: emit(b'setplugs U[0-1] 0 NotThere')
-        elif r < 0.99 and 'cycle' in hz and ks:
+        elif 0.97 <= r < 0.98 and 'undefined_parent' in hz: emit(b'setplugs U[0-1] 0 NotThere')
+        elif 0.98 <= r < 0.985 and 'cycle' in hz and ks:
             x = R.choice(ks); emit(b'setplugs ' + x + b' 0 ' + R.choice(ks))
-        elif 'no_statpath' in hz: emit(b'setstatpath')
+        elif r >= 0.995 and 'no_statpath' in hz: emit(b'setstatpath')
     if R.random() < 0.3:
         emit(b'quit'); 
         if R.random() < 0.5: emit(b'stat')
@@ -492,7 +497,7 @@ def run_session_c(binary, sc):
     if sc['failing']: args.append('--test-fail-power-cmd-hosts=' + ','.join('h%d' % h for h in sc['failing']))
     data = sc['data'].encode('latin-1')
     try:
-        r = subprocess.run(args, input=data, capture_output=True, env=ASAN_ENV, timeout=10)
+        r = subprocess.run(args, input=data, capture_output=True, env=ASAN_ENV, timeout=HANG_LIMIT)
         return r.stdout, r.stderr.decode('latin-1'), r.returncode, False
     except subprocess.TimeoutExpired as e:
         return e.stdout or b'', (e.stderr or b'').decode('latin-1'), -9, True
@@ -544,6 +549,11 @@ def check_session(sc, cout, cerr, rc, hung, V, st, lean=None):
         known = set(o.tbl)
         lines = [l for l in ans.split(b'\n') if l]
         st['session lines'] += 1
+        if any(b'[' in n or b']' in n for n in known):
+            # F40 (known): such a plug is filed under another name in the helper's list than in its map - it is reported `not mapped`
+            # or unknown; the per-target predicates below do not describe that (the byte-for-byte comparison with the model still does)
+            st['session line after a plug name with brackets (F40): per-target predicates skipped'] += 1
+            continue
         if w and w[0] in (b'stat', b'on', b'off'):
             st['session ' + w[0].decode()] += 1
             if ts is None:
@@ -614,10 +624,10 @@ def one_session(args):
 class RedfishLayer:
     name = 'redfish'
 
-    def __init__(self, quick=(16, 120, 8), thorough=(256, 400, 12), sessions_quick=(16, 40), sessions_thorough=(64, 100), hazards=()):
+    def __init__(self, quick=(16, 120, 8), thorough=(256, 400, 12), sessions_quick=(16, 40), sessions_thorough=(64, 100), hazards=None):
         self.quick = quick; self.thorough = thorough
         self.sessions_quick = sessions_quick; self.sessions_thorough = sessions_thorough     # (processes, sessions each)
-        self.hazards = tuple(hazards)
+        self.hazards = None if hazards is None else tuple(hazards)      # None = every kind in HAZARDS_ALL
 
     def build(self): build()
 
